@@ -150,6 +150,7 @@ pub struct SeqState {
     pub ts: std::cell::Cell<u32>,
     pub id: std::cell::Cell<u32>,
     pub last: std::cell::RefCell<Option<Rec>>,
+    pub last_msg: std::cell::RefCell<Option<(Message, &'static str)>>,
 }
 
 impl Swarm {
@@ -245,6 +246,12 @@ pub fn gen_id(r: &mut Rng, alphabet: usize) -> String {
 
 /// text starts that string-handling code likes to special-case: byte-order mark, replacement
 /// character, line separators, first / last code point of each UTF-8 length, private use
+/// texts that read as numbers, paths, markup or format strings
+const MEANINGFUL_TEXTS: &[&str] = &[
+    "0", "-1", "42", "4294967296", "18446744073709551616", "0x1F", "0b101", "1e10", "-0.5", "1.0E-3", "NaN", "inf", "-inf", "+7", "007", " 12 ", "1,5", "1_000",
+    "true", "false", "null", "None", "/dev/null", "C:\\temp\\a.dlt", "../..", "a/b/c", "<a>", "&amp;", "]]>", "%d %s %n", "{0}", "$HOME", "\\0", "\\n",
+];
+
 const TEXT_STARTS: &[&str] = &[
     "\u{feff}", "\u{feff}\u{feff}", "\u{fffe}", "\u{fffd}", "\u{2028}", "\u{80}", "\u{7ff}", "\u{800}", "\u{ffff}", "\u{10000}",
     "\u{10ffff}", "\u{e000}", "\r\n", "\t", " ", "%s", "{}", "\\", "\u{300}", "DLT\u{1}",
@@ -257,6 +264,12 @@ fn gen_text(r: &mut Rng, max_bytes: usize, multibyte_pct: usize) -> String {
         let c = *r.pick(TEXT_STARTS);
         if c.len() <= max_bytes {
             s.push_str(c);
+        }
+    } else if r.chance(1, 14) {
+        let c = *r.pick(MEANINGFUL_TEXTS);
+        if c.len() <= max_bytes {
+            // the whole text, not only its start: "is this a number" looks at all of it
+            return c.to_string();
         }
     } else if r.chance(1, 12) {
         // a string literal of the source (keywords, separators, format fragments)
@@ -294,6 +307,29 @@ fn field_u32(r: &mut Rng, sw: &Swarm) -> u32 {
 /// `n` payload bytes; in swarms that ask for it, with the storage-header magic somewhere inside
 fn payload_bytes(r: &mut Rng, sw: &Swarm, n: usize) -> Vec<u8> {
     let mut b = r.bytes(n);
+    // content with a property rather than a value: one time in twelve the bytes are all equal,
+    // ascending, descending, a palindrome, a two-byte period, or decimal / hex digits
+    if n >= 2 && r.chance(1, 12) {
+        match r.below(7) {
+            0 => {
+                let v = *r.pick(&[0u8, 0xff, 0x20, 0x44, 0x55, 0xaa]);
+                b.iter_mut().for_each(|x| *x = v);
+            }
+            1 => b.iter_mut().enumerate().for_each(|(i, x)| *x = i as u8),
+            2 => b.iter_mut().enumerate().for_each(|(i, x)| *x = 255 - (i as u8)),
+            3 => {
+                for i in 0..n / 2 {
+                    b[n - 1 - i] = b[i];
+                }
+            }
+            4 => {
+                let (p, q) = (r.u8(), r.u8());
+                b.iter_mut().enumerate().for_each(|(i, x)| *x = if i % 2 == 0 { p } else { q });
+            }
+            5 => b.iter_mut().for_each(|x| *x = b'0' + (*x % 10)),
+            _ => b.iter_mut().for_each(|x| *x = b"0123456789abcdefABCDEF"[*x as usize % 22]),
+        }
+    }
     if n >= 1 && r.chance(sw.dict_pct, 100) {
         // a literal of the source somewhere in the payload: a number in either byte order, or a string
         let lit: Vec<u8> = match r.below(4) {
@@ -688,6 +724,47 @@ pub fn gen_message(r: &mut Rng, sw: &Swarm) -> (Message, &'static str) {
             let mut left = budget;
             let want = if r.chance(1, 50) { 255 } else { r.below(sw.max_args + 1) };
             for _ in 0..want {
+                // one argument in ten is its predecessor with one component changed (two
+                // channels logged side by side that differ in scaling, name, unit or value only)
+                if r.chance(1, 10) {
+                    if let Some(prev) = args.last().cloned() {
+                        let mut a: Argument = prev;
+                        match r.below(5) {
+                            0 => {
+                                if let Some(fp) = a.fixed_point.as_mut() {
+                                    fp.quantization = gen_f32(r);
+                                    fp.offset = match fp.offset {
+                                        FixedPointValue::I32(_) => FixedPointValue::I32(interesting_u64(r) as i32),
+                                        FixedPointValue::I64(_) => FixedPointValue::I64(interesting_u64(r) as i64),
+                                    };
+                                }
+                            }
+                            1 => {
+                                if let Some(n) = a.name.as_mut() {
+                                    if n.len() < 200 && !n.is_empty() {
+                                        n.pop();
+                                        n.push('x');
+                                    }
+                                }
+                            }
+                            2 => {
+                                if let Some(u) = a.unit.as_mut() {
+                                    if !u.is_empty() {
+                                        u.pop();
+                                        u.push('y');
+                                    }
+                                }
+                            }
+                            3 => a.type_info.has_trace_info = !a.type_info.has_trace_info,
+                            _ => {}
+                        }
+                        if a.len() <= left {
+                            left -= a.len();
+                            args.push(a);
+                            continue;
+                        }
+                    }
+                }
                 match gen_argument(r, sw, left) {
                     Some(a) => {
                         left -= a.len();
@@ -879,9 +956,41 @@ pub fn gen_record(r: &mut Rng, sw: &Swarm) -> Rec {
             return prev.clone();
         }
     }
+    // ... or the previous message with exactly one field changed (the next counter value, the
+    // next tick, another ECU, one more payload byte): neighbours that are equal except for that
+    if r.chance(sw.dup_pct, 200) {
+        let prev = sw.seq.last_msg.borrow().clone();
+        if let Some((mut m, k)) = prev {
+            match r.below(6) {
+                0 => m.header.message_counter = m.header.message_counter.wrapping_add(1),
+                1 => m.header.timestamp = m.header.timestamp.map(|t| t.wrapping_add(1)),
+                2 => m.header.session_id = m.header.session_id.map(|s| s ^ 1),
+                3 => {
+                    if let Some(id) = m.header.ecu_id.as_mut() {
+                        *id = gen_id(r, sw.id_alphabet);
+                    }
+                }
+                4 => {
+                    if let Some(sh) = m.storage_header.as_mut() {
+                        sh.timestamp.microseconds = (sh.timestamp.microseconds + 1) % 1_000_000;
+                    }
+                }
+                _ => {
+                    if let Some(x) = m.extended_header.as_mut() {
+                        x.context_id = gen_id(r, sw.id_alphabet);
+                    }
+                }
+            }
+            let rec = record_of(&m, k);
+            *sw.seq.last.borrow_mut() = Some(rec.clone());
+            *sw.seq.last_msg.borrow_mut() = Some((m, k));
+            return rec;
+        }
+    }
     let (m, k) = gen_message(r, sw);
     let rec = record_of(&m, k);
     *sw.seq.last.borrow_mut() = Some(rec.clone());
+    *sw.seq.last_msg.borrow_mut() = Some((m, k));
     rec
 }
 
